@@ -21,23 +21,27 @@ sec='''## 9. Which checks catch which changes
 
 Two kinds of evidence, both reproducible with the scripts named:
 
-**(a) Every repaired defect, re-introduced.** `tools/revert_selftest.sh` reverts each `fix:`
-commit in /repo's working tree (nothing is committed), runs the repository's own tests (they
-pass in every case: the defects were invisible to them), runs the quick check of the property
-named in §7 and expects exit 1 with a VIOLATION line, then restores /repo. Result: every revert
-is detected (`selftest/revert_report.txt`).
+**(a) Every repaired defect, re-introduced.** `tools/revert_selftest.sh` takes each `fix:` commit
+out of /repo's working tree again (by `git revert -n`, for five commits by a hand-made patch;
+nothing is committed), runs the repository's own tests (they pass in every case: the defects were
+invisible to them), runs the quick check of the property named in §7 and expects exit 1 with a
+VIOLATION line, then restores /repo; `tools/revert_hist.sh` does the equivalent for thirteen older
+commits that can no longer be reverted on HEAD, by comparing /repo's tree at the commit with the
+tree at its parent. Result: all 58 repairs are detected when removed
+(`selftest/revert_report.txt`, `selftest/revert_hist_report.txt`).
 
-**(b) %d changes written by independent sub-agents** in six rounds of 40. Each agent received only
+**(b) %d changes written by independent sub-agents** in eight rounds of 40. Each agent received only
 the text of one property and a scratch worktree (nothing from /verif; from round 2 on also a
 two-line summary of the ideas already used for that property, so that it would look elsewhere;
-in rounds 5 and 6 also the request to make the change correct for every input of normal size and
-wrong only far outside, or visible to one consumer of an intermediate result only) and produced changes that compile, pass the 38 existing tests, break the
+from round 5 on also the request to make the change correct for every input of normal size and
+wrong only far outside, or visible to one consumer of an intermediate result only, and - first -
+to hunt for violations in the unmodified code, §7) and produced changes that compile, pass the 38 existing tests, break the
 property, and need something specific to manifest; each came with a demonstration test. I
 re-confirmed every one in a scratch worktree (suite passes with the change, demo fails with it,
 demo passes without it) before keeping it as `/verif/seeded/<id>-<k>/` (`patch.diff`,
 `demo_test.go`, `notes.md`, `meta.json`). Detected by the property's quick check as it stood
 when the seed arrived: round 1 27/40, round 2 23/40, round 3 29/40, round 4 25/40, round 5
-12/40, round 6 14/40 (130 of 240 overall) - the agents were told what had been tried, so each round looked
+12/40, round 6 14/40, round 7 15/40, round 8 20/40 (165 of 320 overall) - the agents were told what had been tried, so each round looked
 where the checks had not yet been shown to look. Every miss was analysed and the check
 strengthened *in general terms* (a new family, alphabet member, leg or oracle, never a
 special case for the seed); after that %d of %d are detected by the quick check of the
@@ -71,7 +75,13 @@ on one runner over tens of thousands of calls (soak legs); data objects that liv
 evaluations; answers that depend on chance (determinism leg); locks left behind by error
 paths; keys spelled like keywords, with leading underscores, or differing only in case;
 parameter types that merely implement an interface; aliased but acyclic arguments;
-exponent-carrying zeros; trees returned together with an error.
+exponent-carrying zeros; trees returned together with an error; and, after rounds 6 to 8: who owns a
+result (lists handed out twice, a caller's slice rewritten or sorted in place, a caller's buffer
+written behind the parsed window); what the *same runner* does next (a clock frozen by a failed
+evaluation, a flag left set by a panic, a lock that is not re-entrant, a context read from the
+runner instead of the call); flat chains as deep trees; mixed operators of equal precedence;
+digit groups at machine-word sizes; bytes that are not UTF-8 wherever order or position counts;
+Go values of rarely used kinds (embedded structs, unsigned integers, unset times).
 
 Not every conceivable change is caught: thresholds beyond the explored sizes (e.g. a limit
 that needs more than 16 x 600 nesting levels in flight), unsynchronised accesses between yield
